@@ -36,7 +36,7 @@ use hyper::body::Bytes;
 use hyper::http::{Extensions, HeaderMap};
 use jsonrpsee_core::client::{
 	BatchResponse, ClientT, Error, IdKind, MiddlewareBatchResponse, MiddlewareMethodResponse, MiddlewareNotifResponse,
-	RequestIdManager, Subscription, SubscriptionClientT, generate_batch_id_range,
+	RequestIdManager, Subscription, SubscriptionClientT,
 };
 use jsonrpsee_core::middleware::layer::{RpcLogger, RpcLoggerLayer};
 use jsonrpsee_core::middleware::{Batch, RpcServiceBuilder, RpcServiceT};
@@ -468,8 +468,7 @@ where
 				None => None,
 			};
 			let batch = batch.build()?;
-			let id = self.id_manager.next_request_id();
-			let id_range = generate_batch_id_range(id, batch.len() as u64)?;
+			let id_range = self.id_manager.next_batch_id_range(batch.len() as u64)?;
 
 			let mut batch_request = Batch::with_capacity(batch.len());
 			for ((method, params), id) in batch.into_iter().zip(id_range.clone()) {
